@@ -157,7 +157,7 @@ func init() {
 	}
 }
 
-var countLieKinds = []string{"honest", "skip", "fold", "skip+raise", "fold+cancel", "all-zero", "random", "first-row-takes-all"}
+var countLieKinds = []string{"honest", "skip", "fold", "fold-next", "skip+raise", "fold+cancel", "all-zero", "random", "first-row-takes-all"}
 
 type countCall struct {
 	nbTable, nbRow int
@@ -270,6 +270,11 @@ func lyingCount(kind string, p *big.Int, rng *rand.Rand, st *countStats) solver.
 		case "fold":
 			for _, q := range unmatched {
 				m[foldRow(q)]++
+			}
+			set()
+		case "fold-next": // blame the row after the one with the same index
+			for _, q := range unmatched {
+				m[(foldRow(q)+1)%c.nbTable]++
 			}
 			set()
 		case "skip+raise":
